@@ -145,8 +145,11 @@ func (p *SNIProxy) ServeTCP(in net.Conn) error {
 		t.RxCounter.Add(float64(n))
 	}
 
+	// The buffered reader may hold data which the client has sent
+	// together with the ClientHello. Keep reading from it so that
+	// these bytes are forwarded as well.
 	go cp(in, out, t.RxCounter)
-	go cp(out, in, t.TxCounter)
+	go cp(out, tlsReader, t.TxCounter)
 	err = <-errc
 	if err != nil && err != io.EOF {
 		log.Print("[WARN]: tcp+sni:  ", err)
